@@ -501,6 +501,116 @@ def rule_r7(chk, p, t):
     C04.rule_r6(chk, p, t, rid="C13.R8")
 
 
+def rule_r9(chk, p, t):
+    from fractions import Fraction
+    from math import pi
+
+    from rsa.terms import const_value
+
+    r = chk.rule(
+        "C13.R9",
+        "physical constants: exact unit relations and agreement with the published values",
+        14,
+        "module-level constants of physics.constants and the Earth model, folded exactly from their literal expressions: the "
+        "unit relations hold exactly as rationals (TWOPI = 2 PI, SEC2DAYS DAYS2SEC = 1, DEG2RAD RAD2DEG = 1, ARCSEC2RAD = "
+        "ARCSEC2DEG DEG2RAD, M2KM KM2M = 1, SOLAR_PRESSURE = SOLAR_FLUX / SPEED_OF_LIGHT) and each physical value lies within "
+        "a tolerance of its published value that admits every edition of the standard tables but no unit slip (m vs km, "
+        "deg vs rad) and no dropped or doubled digit: mu, equatorial radius, spin rate, eccentricity, J2-J4 (sign "
+        "included), the speed of light (exact), the astronomical unit, the solar constant",
+        "which edition of a standard the force model should use",
+    )
+    cm = p.module("resonaate.physics.constants")
+    names = {}
+    sym = {"pi": Fraction(pi)}
+    exprs = {}
+    for st in cm.tree.body:
+        tg, val = None, None
+        if isinstance(st, ast.Assign) and len(st.targets) == 1 and isinstance(st.targets[0], ast.Name):
+            tg, val = st.targets[0].id, st.value
+        elif isinstance(st, ast.AnnAssign) and isinstance(st.target, ast.Name) and st.value is not None:
+            tg, val = st.target.id, st.value
+        if tg is None:
+            continue
+        v = const_value(val, {**sym, **names})
+        if v is not None:
+            names[tg] = v
+            exprs[tg] = val
+    earth = p.cls("resonaate.physics.bodies.earth.Earth")
+    ev = {}
+    for k, val in earth.class_attrs.items():
+        v = const_value(val, {})
+        if v is not None:
+            ev[k] = v
+
+    def rel(name, lhs, rhs):
+        cons = f"constants:{name}"
+        if lhs is None or rhs is None:
+            r.error(cons, "a constant of the relation is no longer a literal expression")
+        elif lhs == rhs:
+            r.ok(cons, "holds exactly", cm.relpath)
+        else:
+            r.violation(cons, f"unit-relation:{name}", f"the unit relation {name} does not hold: {float(lhs)!r} vs {float(rhs)!r}", cm.relpath)
+
+    g = names.get
+    two = Fraction(2)
+    rel("TWOPI == 2 PI", g("TWOPI"), two * g("PI") if g("PI") is not None else None)
+    rel("SEC2DAYS * DAYS2SEC == 1", g("SEC2DAYS") * g("DAYS2SEC") if g("SEC2DAYS") is not None and g("DAYS2SEC") is not None else None, Fraction(1))
+    rel("DAYS2SEC == 86400", g("DAYS2SEC"), Fraction(86400))
+    rel("M2KM * KM2M == 1", g("M2KM") * g("KM2M") if g("M2KM") is not None and g("KM2M") is not None else None, Fraction(1))
+    rel("ARCSEC2DEG == 1/3600", g("ARCSEC2DEG"), Fraction(1, 3600))
+    # relations through pi are compared on the symbolic expressions (pi is irrational: fold with pi as an atom)
+    from rsa import ratfun as rf
+
+    def sym_rel(name, a_src, b_src):
+        cons = f"constants:{name}"
+        try:
+            sub = {k: v for k, v in exprs.items()}
+            # substitute module constants by their defining expressions, recursively (depth 3)
+            def expand(e, depth=0):
+                class S(ast.NodeTransformer):
+                    def visit_Name(self, n):
+                        if n.id in sub and depth < 4:
+                            return expand(sub[n.id], depth + 1)
+                        return n
+                import copy as _c
+                return S().visit(_c.deepcopy(e))
+            ok = rf.rat_equal(rf.ratfun(expand(rf.parse(a_src))), rf.ratfun(expand(rf.parse(b_src))))
+        except Exception as e:
+            r.error(cons, f"{type(e).__name__}: {e}")
+            return
+        if ok:
+            r.ok(cons, "holds symbolically", cm.relpath)
+        else:
+            r.violation(cons, f"unit-relation:{name}", f"the unit relation {name} does not hold", cm.relpath)
+
+    sym_rel("DEG2RAD * RAD2DEG == 1", "DEG2RAD * RAD2DEG", "1")
+    sym_rel("DEG2RAD == pi / 180", "DEG2RAD", "pi / 180")
+    sym_rel("ARCSEC2RAD == ARCSEC2DEG * DEG2RAD", "ARCSEC2RAD", "pi / 180 / 3600")
+    sym_rel("SOLAR_PRESSURE == SOLAR_FLUX / SPEED_OF_LIGHT", "SOLAR_PRESSURE", "SOLAR_FLUX / SPEED_OF_LIGHT")
+    STD = [
+        ("SPEED_OF_LIGHT", g("SPEED_OF_LIGHT"), 299792458.0, 0.0, "m/s (exact by definition)"),
+        ("AU2KM", g("AU2KM"), 1.495978707e8, 1e-4, "km"),
+        ("SOLAR_FLUX", g("SOLAR_FLUX"), 1364.0, 5e-3, "W/m^2 (1361 - 1367 in use)"),
+        ("Earth.mu", ev.get("mu"), 398600.4418, 1e-5, "km^3/s^2"),
+        ("Earth.radius", ev.get("radius"), 6378.137, 1e-5, "km"),
+        ("Earth.spin_rate", ev.get("spin_rate"), 7.2921151467e-5, 1e-6, "rad/s"),
+        ("Earth.eccentricity", ev.get("eccentricity"), 0.0818191908, 1e-5, "-"),
+        ("Earth.j2", ev.get("j2"), 1.0826267e-3, 1e-4, "-"),
+        ("Earth.j3", ev.get("j3"), -2.5327e-6, 2e-3, "-"),
+        ("Earth.j4", ev.get("j4"), -1.6196e-6, 2e-3, "-"),
+    ]
+    for name, got, want, tol, unit in STD:
+        cons = f"constants:{name}"
+        if got is None:
+            r.error(cons, "not a literal constant any more")
+            continue
+        relerr = abs(float(got) - want) / abs(want)
+        if relerr <= tol:
+            r.ok(cons, f"{float(got)!r} {unit}: within {tol:g} of the published {want!r}", cm.relpath)
+        else:
+            r.violation(cons, f"constant:{name}", f"{name} = {float(got)!r} {unit} deviates from the published value {want!r} by {relerr:.2e} (tolerance {tol:g}): a unit slip or a digit error - every acceleration that uses it is off by the same factor", cm.relpath)
+
+
 def run(chk, p, t):
     chk.explanation = (
         "Static decision of structural necessary conditions of C13: (R1) each perturbation is defined under its own "
@@ -512,7 +622,7 @@ def run(chk, p, t):
         "value of any formula, the Chebyshev ephemerides, continuity of Sun / Moon positions."
     )
     chk.assumptions += ["the reference forms of R4 are transcriptions of the equations cited in the module docstrings (Montenbruck & Gill 3.29-3.33, 3.75; Battin's third-body form)"]
-    for fn in (rule_r1, rule_r2, rule_r3, rule_r4, rule_r5, rule_r6, rule_r7):
+    for fn in (rule_r1, rule_r2, rule_r3, rule_r4, rule_r5, rule_r6, rule_r7, rule_r9):
         rid = "C13.R" + fn.__name__[-1]
         if not chk.wants(rid):
             continue
